@@ -27,11 +27,12 @@ class Module:
         except SyntaxError as e:  # pragma: no cover
             raise AnalysisError(f"cannot parse {relpath}: {e}") from e
         # private helpers that no property names as an anchor are transparent: inline them into their callers
-        from .inline import normalise_byte_accumulators, fold_list_building, unroll_constant_loops, final_loop_returns, split_parallel_assignments, expand_table_lookups, inline_helpers, normalise_loops, normalise_match, strip_logging, unroll_table_searches
+        from .inline import normalise_memo_tables, normalise_byte_accumulators, fold_list_building, unroll_constant_loops, final_loop_returns, split_parallel_assignments, expand_table_lookups, inline_helpers, normalise_loops, normalise_match, strip_logging, unroll_table_searches
 
         self.stripped_log_statements = strip_logging(self.tree)
         self.split_assignments = split_parallel_assignments(self.tree) + final_loop_returns(self.tree)
         self.byte_accumulators = normalise_byte_accumulators(self.tree)
+        self.memo_tables = normalise_memo_tables(self.tree)
         self.normalised_matches = normalise_match(self.tree)
         self.expanded_lookups = expand_table_lookups(self.tree)
         self.unrolled_early = unroll_table_searches(self.tree)  # helpers that search a literal table become loop-free
